@@ -80,7 +80,7 @@ def c16_job(job):
             res["replay"] = rp
             return res
         trace = os.path.join(wd, "trace.ndjson")
-        rec = Recorder(trace, len(cs["hosts"]))
+        rec = Recorder(trace, len(cs["hosts"]), cs=cs)
         rec.create(1, scn, False, True, True)
         rec.reset(1)
         ev = None
@@ -332,7 +332,7 @@ def c20_job(job):
         fewest = min(goals, key=lambda g: g[0])
         res.update(max_score=best[1], min_comp=fewest[0])
         trace = os.path.join(wd, "trace.ndjson")
-        rec = Recorder(trace, len(cs["hosts"]))
+        rec = Recorder(trace, len(cs["hosts"]), cs=cs)
         for eid, (nc, sc, hist) in enumerate([best, fewest], start=1):
             rec.create(eid, scn, eid == 2, True, True)
             rec.reset(eid)
